@@ -710,8 +710,13 @@ def coq_table():
 
 
 def generate():
-    """(re)write coq/Gen/PbFmt.v; returns True if it changed"""
+    """(re)write coq/Gen/PbFmt.v; returns True if it changed.  Hook for harness/gen_tables.py / setup.sh: never raises
+    (the C02 driver itself regenerates the table fail-closed, see props/c02.py:tables)"""
     import gen_tables
     from props import c02_scan
-    c02_scan.apply()
-    return gen_tables.write_if_changed("PbFmt.v", coq_table())
+    try:
+        c02_scan.apply()
+        return gen_tables.write_if_changed("PbFmt.v", coq_table())
+    except Exception as e:  # noqa
+        print(f"c02_pbfmt.generate: {type(e).__name__}: {e}")
+        return False
